@@ -39,8 +39,6 @@ theorem src_floatPreAggVLCEncode_expected : src_floatPreAggVLCEncode = "{ if m.m
 
 theorem src_floatPreAggVLCDecode_expected : src_floatPreAggVLCDecode = "{ flag := src[0] src = src[1:] if flag == 0 { m.minV, m.maxV, m.sumV = 0, 0, 0 } else { m.minV, src = numberenc.UnmarshalFloat64(src), src[8:] m.maxV, src = numberenc.UnmarshalFloat64(src), src[8:] m.sumV, src = numberenc.UnmarshalFloat64(src), src[8:] } v, n := binary.Uvarint(src) if n <= 0 { return nil, fmt.Errorf(\"invalid count value\") } m.countV = int64(v) src, minTime, maxTime, err := DecodeAggTimes(src[n:]) if err != nil { return nil, err } m.minTime = minTime m.maxTime = maxTime return src, nil }" := by rfl
 
-theorem src_floatPreAggSize_expected : src_floatPreAggSize = "{ return int(unsafe.Sizeof(*m)) }" := by rfl
-
 theorem src_boolPreAggMarshal_expected : src_boolPreAggMarshal = "{ dst = numberenc.MarshalInt64Append(dst, m.counts) dst = numberenc.MarshalInt64Append(dst, m.minTime) dst = numberenc.MarshalInt64Append(dst, m.maxTime) dst = append(dst, byte(m.minV)) dst = append(dst, byte(m.maxV)) return dst }" := by rfl
 
 theorem src_boolPreAggUnmarshal_expected : src_boolPreAggUnmarshal = "{ if len(src) < m.size() { return nil, fmt.Errorf(\"too small data for ColumnMetaBoolean\") } m.counts, src = numberenc.UnmarshalInt64(src), src[8:] m.minTime, src = numberenc.UnmarshalInt64(src), src[8:] m.maxTime, src = numberenc.UnmarshalInt64(src), src[8:] m.minV, src = int8(src[0]), src[1:] m.maxV, src = int8(src[0]), src[1:] return src, nil }" := by rfl
@@ -66,5 +64,7 @@ theorem fields_StringPreAgg_expected : fields_StringPreAgg = ["counts int64"] :=
 theorem fields_TimePreAgg_expected : fields_TimePreAgg = ["countV uint32"] := by rfl
 
 theorem preAggIndexNames_expected : preAggIndexNames = ["minIndex", "maxIndex", "minTIndex", "maxTIndex", "sumIndex", "countIndex"] := by rfl
+
+theorem fp_floatPreAggSize_expected : fp_floatPreAggSize = "82477316f887e0e4" := by rfl
 
 end OG.C07.FactsPreAgg
